@@ -5,6 +5,7 @@ import copy
 import json
 import os
 import shutil
+import sys
 import tempfile
 from pathlib import Path
 
@@ -334,7 +335,36 @@ def values_op(a):
             cx, cy = fn()
             out[name] = {"a": _describe(cx, xo), "b": _describe(cy, yo)}
         return out
+    if kind == "xproc":
+        # the ordinary use of pickling: the object is used (hashed, as a dictionary key) here, pickled,
+        # and unpickled in ANOTHER interpreter (other hash salt) - there it must still be its value
+        import os
+        import pickle as _pickle
+        import subprocess
+        out = {}
+        for name, o, origin in (("a", x, xo), ("b", y, yo)):
+            if type(o) is str:
+                continue
+            _ = {o: 1}                                     # hashed before it is pickled
+            blob = _pickle.dumps([o, origin], protocol=a.get("protocol", 2))
+            env = dict(os.environ, PYTHONHASHSEED=str(a.get("salt", 12345)), PYTHONPATH=os.pathsep.join(p for p in sys.path if p))
+            r = subprocess.run([sys.executable, "-c", "import probe_ext; probe_ext.xproc_child()"], input=blob,
+                               capture_output=True, env=env, timeout=120)
+            if r.returncode != 0:
+                raise RuntimeError("xproc child failed: " + r.stderr.decode()[-400:])
+            out[name] = json.loads(r.stdout.decode())
+        return out
     raise ValueError(kind)
+
+
+def xproc_child():
+    import pickle as _pickle
+    o, origin = _pickle.loads(sys.stdin.buffer.read())
+    s = str(o)
+    d = _describe(o, origin)
+    d.update({"hash_same": hash(o) == hash(s), "key_found": s in {o: 1} and o in {s: 1}, "in_set": o in {s},
+              "eq_str": bool(o == s) and bool(s == o)})
+    sys.stdout.write(json.dumps(d))
 
 
 HANDLERS.update({"values": values_op})
